@@ -144,6 +144,9 @@ func (e *Engine) externFor(fn *types.Func) *FuncContract {
 	if c, ok := e.cs.Funcs[full]; ok {
 		return c
 	}
+	if c, ok := e.cs.Funcs[funcKey(fn)]; ok && c.Extern {
+		return c
+	}
 	return nil
 }
 
